@@ -519,18 +519,29 @@ func codecOfTag(tag string) string {
 	return "vp8"
 }
 
-// fixSimpleSizes rewrites the RIFF size and the first chunk's size of a simple
-// (non-VP8X) file after its tail was cut, so that the container layer accepts it
-// and the truncation reaches the bitstream decoder.
-func fixSimpleSizes(b []byte) []byte {
-	if len(b) < 24 || string(b[12:15]) != "VP8" {
+// fixSizes rewrites the RIFF size and the size of the chunk that a cut went through,
+// so that the container layer accepts the file and the truncation reaches the
+// bitstream decoder.
+func fixSizes(b []byte) []byte {
+	if len(b) < 24 || string(b[0:4]) != "RIFF" {
 		return b
 	}
-	if len(b)&1 == 1 {
-		b = b[:len(b)-1]
+	off := 12
+	for off+8 <= len(b) {
+		size := int(binary.LittleEndian.Uint32(b[off+4:]))
+		if off+8+size > len(b) {
+			if (len(b)-(off+8))&1 == 1 {
+				b = b[:len(b)-1]
+			}
+			binary.LittleEndian.PutUint32(b[off+4:], uint32(len(b)-(off+8)))
+			break
+		}
+		off += 8 + size + (size & 1)
+	}
+	if off+8 > len(b) && off < len(b) {
+		b = b[:off] // cut inside a chunk header: drop the partial header
 	}
 	binary.LittleEndian.PutUint32(b[4:], uint32(len(b)-8))
-	binary.LittleEndian.PutUint32(b[16:], uint32(len(b)-20))
 	return b
 }
 
@@ -566,7 +577,7 @@ func buildLibrary(c *Ctx, dir string) []libFile {
 				continue
 			}
 			t := append([]byte(nil), data[:cut]...)
-			put(tag+"-trunc", fixSimpleSizes(t))
+			put(tag+"-trunc", fixSizes(t))
 		}
 		// payload corruption
 		for k := 0; k < 2; k++ {
@@ -877,28 +888,43 @@ func (g *gen) history(group string) *history {
 
 // ---------------------------------------------------------------- kinds (violation keys)
 
+// callKind names the pooled codec families a call exercises: E8 = VP8 encoder (with
+// token buffer, bool writers), EL = VP8L encoder, D8 = VP8 decoder, DL = VP8L
+// decoder; hdr = header query only.  A stale-state defect of family X can only
+// show in a pair whose both calls involve X.
 func callKind(c *Call, failed bool) string {
 	k := ""
 	switch c.Op {
 	case "enc":
-		if c.Opt.Lossless {
-			k = "enc-vp8l"
-		} else {
-			k = "enc-vp8"
+		switch {
+		case c.Opt.Lossless:
+			k = "EL"
+		case c.Img.Alpha != 0 && c.Opt.AComp != 0:
+			k = "E8+EL" // ALPH plane compressed by the VP8L encoder
+		default:
+			k = "E8"
 		}
 	case "animenc":
-		switch {
-		case c.Anim.Mixed:
-			k = "animenc-mixed"
-		case c.Anim.Lossless:
-			k = "animenc-vp8l"
-		default:
-			k = "animenc-vp8"
+		if c.Anim.Lossless && !c.Anim.Mixed {
+			k = "EL"
+		} else {
+			k = "E8+EL" // sub-frame optimisation introduces transparency: ALPH planes
 		}
 	case "dec", "animdec":
-		k = "dec-" + codecOfTag(c.Tag)
+		switch codecOfTag(c.Tag) {
+		case "vp8l":
+			k = "DL"
+		case "vp8":
+			if strings.HasPrefix(c.Tag, "vp8a") || strings.HasPrefix(c.Tag, "anim") {
+				k = "D8+DL"
+			} else {
+				k = "D8"
+			}
+		default:
+			k = "D8+DL"
+		}
 	default:
-		k = c.Op + "-" + codecOfTag(c.Tag)
+		k = "hdr"
 	}
 	if failed {
 		k += "-fail"
@@ -1120,15 +1146,34 @@ func run(c *Ctx) {
 }
 
 // minimise looks for a single predecessor that reproduces the disagreement; the
-// violation key names the kinds of the two calls.
+// violation key names the codec families of the two calls.  For a pure VP8-encoder
+// victim the pair is re-run with the victim's Partitions forced to 0: if the
+// disagreement persists it is not the partitioned-token-emission class and the key
+// says so (":parts0"), so that a different encoder leak is never filed under it.
 func minimise(h *history, i int, fr *childResult, fc *freshCache) (string, any) {
 	victim := h.Calls[i]
 	for j := i - 1; j >= 0; j-- {
 		outs, _ := runHistory([]*Call{h.Calls[j], victim}, h.Procs)
 		if outs[1].Digest != fr.Digest {
-			key := "hist:" + callKind(h.Calls[j], outs[0].Failed) + ">" + callKind(victim, fr.Failed)
-			return key, map[string]any{"history": []*Call{h.Calls[j], victim}, "procs": h.Procs, "got": outs[1].Digest, "fresh": fr.Digest,
+			vk := callKind(victim, fr.Failed)
+			key := "hist:" + callKind(h.Calls[j], outs[0].Failed) + ">" + vk
+			rep := map[string]any{"history": []*Call{h.Calls[j], victim}, "procs": h.Procs, "got": outs[1].Digest, "fresh": fr.Digest,
 				"original_history": h.Calls, "original_index": i}
+			if vk == "E8" && victim.Opt.Parts != 0 {
+				v0 := *victim
+				o0 := *victim.Opt
+				o0.Parts = 0
+				v0.Opt = &o0
+				outs0, _ := runHistory([]*Call{h.Calls[j], &v0}, h.Procs)
+				fr0 := fc.get(&v0, h.Procs)
+				if outs0[1].Digest != fr0.Digest {
+					key += ":parts0"
+					rep["also_with_partitions_0"] = true
+				}
+			} else if vk == "E8" {
+				key += ":parts0"
+			}
+			return key, rep
 		}
 	}
 	return "hist:multi>" + callKind(victim, fr.Failed), map[string]any{"history": h.Calls[:i+1], "procs": h.Procs, "fresh": fr.Digest}
